@@ -42,6 +42,23 @@ type treeCase struct {
 
 var wordRe = regexp.MustCompile(`[A-Za-z]+`)
 
+// panicSig: "hang" for a parser that did not return, else "panic:<first words>".
+func panicSig(msg string) string {
+	if strings.HasPrefix(msg, "hang:") {
+		return "hang"
+	}
+	return "panic:" + shortMsg(msg)
+}
+
+// judge is pk.Judge, except that a hang fails the test at once: every shrink attempt of a
+// hanging input would leave another spinning goroutine behind.
+func judge(t *testing.T, rt *rapid.T, c any, f *pk.Failure) {
+	if f != nil && f.Sig == "hang" {
+		pk.Judge(t, c, f)
+	}
+	pk.Judge(rt, c, f)
+}
+
 func shortMsg(s string) string {
 	w := wordRe.FindAllString(s, 4)
 	return strings.ToLower(strings.Join(w, "-"))
@@ -96,7 +113,7 @@ func checkTree(c treeCase) *pk.Failure {
 	text := wrapCtx(c.Ctx, c.Expr)
 	p := parseRepo(text)
 	if p.panic != "" {
-		return pk.Failf("tree", "panic:"+shortMsg(p.panic), "parser panicked on %q: %s", text, p.panic)
+		return pk.Failf("tree", panicSig(p.panic), "parser panicked on %q: %s", text, p.panic)
 	}
 	if !p.clean() {
 		return pk.Failf("tree", "rejected:"+classes, "grammatical expression rejected\n text:     %s\n expected: %s\n%s", text, want, p.errText())
@@ -150,7 +167,7 @@ func checkLayout(c layoutCase) *pk.Failure {
 	pa, pb := parseRepo(c.A), parseRepo(c.B)
 	for _, p := range []parsed{pa, pb} {
 		if p.panic != "" {
-			return pk.Failf("layout", "panic:"+shortMsg(p.panic), "parser panicked: %s\nA:\n%s\nB:\n%s", p.panic, c.A, c.B)
+			return pk.Failf("layout", panicSig(p.panic), "parser panicked: %s\nA:\n%s\nB:\n%s", p.panic, c.A, c.B)
 		}
 	}
 	kind := c.Kind
@@ -289,7 +306,7 @@ func TestTrees(t *testing.T) {
 			if nontrivial(tree) {
 				pk.NonTrivial(v.text, c)
 			}
-			pk.Judge(rt, c, checkTree(c))
+			judge(t, rt, c, checkTree(c))
 		}
 	})
 }
@@ -424,7 +441,7 @@ func TestLayout(t *testing.T) {
 		if c.A != c.B {
 			pk.NonTrivial(c.B, map[string]string{"kind": c.Kind, "variant": c.B})
 		}
-		pk.Judge(rt, c, checkLayout(c))
+		judge(t, rt, c, checkLayout(c))
 	})
 }
 
